@@ -342,7 +342,7 @@ def gen_cases(rng, tier, have):
         elif n <= 200:
             C.append(mk("lowest_prim_root", [n], "lowest_prim_root", n=n))
     for i in range(60 if th else 16):
-        q = rand_prime(rng, rng.range(14, 44))
+        q = rand_prime(rng, rng.range(14, 32))          # the code factors p^m by Pollard rho: ~4 s for a 43-bit p
         for n in (q, 2 * q, q * q, 2 * q ** 3):
             C.append(mk("prim_root", [n], "prim_root", n=n))
         C.append(mk("prim_root_of_prime", [q], "prim_root_of_prime", n=q))
@@ -411,7 +411,7 @@ def gen_cases(rng, tier, have):
         if rng.chance(2, 3):
             F[2] = rng.choice([1, 2, 3, 4, 5, 28, 29, 40])
         for j in range(rng.range(1, 3)):
-            q = rng.choice([3, 5, 7, 17, 41, 73]) if rng.chance(1, 2) else rand_prime(rng, rng.range(10, 64))
+            q = rng.choice([3, 5, 7, 17, 41, 73]) if rng.chance(1, 2) else rand_prime(rng, rng.range(10, 32))   # sqrootmod factors n itself
             F[q] = rng.range(1, 4)
         n = 1
         for q, e in F.items():
